@@ -36,7 +36,7 @@ RULE = ("case = gens.system_spec(N 1..4) + optional mode + temperature code (0 |
 ASSUMPTIONS = ["k_B of the library (0.69503476 cm^-1/K) vs CODATA: populations compared to 1e-6 absolute"]
 BUDGET = {"quick": (1500, 80), "thorough": (4000, 700)}
 
-CONDS = ["thermal", "tes_weak", "tes_strong", "impulsive", "thermal_rdm"]
+CONDS = ["thermal", "tes_weak", "tes_strong", "impulsive", "thermal_rdm", "tes_strong_rh"]
 CTXS = ["outside", "eigen", "other", "units-1/cm", "units-eV"]
 
 
@@ -55,6 +55,10 @@ def _case(draw):
         for j in range(i, dim):
             other[i][j] = other[j][i] = draw(st.integers(-5, 5))
     cond = draw(st.sampled_from(CONDS))
+    if cond == "thermal_rdm" and mode is not None and draw(st.booleans()):
+        # a mode displaced already in the electronic ground state, and a very cold environment
+        mode = dict(mode, shift0=draw(st.sampled_from([0.5, 1.0, -1.5])))
+        spec["T"] = draw(st.sampled_from([0.1, 0.3, 1.0, 5.0, 77.0]))
     # what the aggregate has been used for before the state is requested (a state is a function of the system and the
     # temperature, not of the aggregate object's history)
     uses = draw(st.lists(st.sampled_from(["diagonalize", "stR", "stR_td", "stR_sec", "stF", "cRF", "redfield_rates"]),
@@ -88,6 +92,8 @@ def _make(qr, case):
             mode = qr.Mode(float(md["w"]))
             agg.monomers[0].add_Mode(mode)
             mode.set_nmax(0, md["n0"]); mode.set_nmax(1, md["n1"]); mode.set_HR(1, md["hr"])
+            if md.get("shift0"):
+                mode.set_shift(0, float(md["shift0"]))
     agg.build()
     t0, nt, dt = spec["time"]
     for u in case.get("uses", []):
@@ -117,6 +123,11 @@ def _request(qr, agg, cond, T):
     if cond == "tes_strong":
         return agg.get_DensityMatrix(condition_type="thermal_excited_state", relaxation_theory_limit="strong_coupling",
                                      temperature=T)
+    if cond == "tes_strong_rh":
+        # the caller supplies the Hamiltonian whose site energies define the equilibrium ("already void of
+        # reorganisation energies")
+        return agg.get_DensityMatrix(condition_type="thermal_excited_state", relaxation_theory_limit="strong_coupling",
+                                     temperature=T, relaxation_hamiltonian=agg.get_Hamiltonian())
     if cond == "impulsive":
         return agg.get_DensityMatrix(condition_type="impulsive_excitation", temperature=T)
     raise ValueError(cond)
@@ -182,6 +193,14 @@ def check_case(case, ctx):
             _boltz(ctx, pops[1:], E, T, kT, "strong/site-basis")
             ctx.bound("off-diagonal-zero", float(numpy.max(numpy.abs(ref - numpy.diag(numpy.diag(ref))))), 1e-12,
                       where="strong")
+        elif cond == "tes_strong_rh" and electronic:
+            # supplied Hamiltonian: Boltzmann in its own site energies, no reorganisation energies subtracted
+            E = numpy.array([spec["E"][i] * orc.CM2INT for i in range(n)])
+            distinct = len(set(numpy.round(E, 9))) >= 2
+            lowest_degenerate = len(E) > 1 and float(numpy.sort(E)[1] - numpy.sort(E)[0]) < 1e-9
+            pops = numpy.real(numpy.diag(ref))
+            ctx.bound("ground-state-empty", abs(pops[0]), 1e-12, where=tag)
+            _boltz(ctx, pops[1:], E, T, kT, "strong/supplied-hamiltonian")
         elif cond == "tes_strong" and not electronic:
             # vibronic aggregate: every state of the one-exciton band carries the reorganisation energy of its site
             with qr.energy_units("int"):
